@@ -179,6 +179,57 @@ def probe_d16():
         shutil.rmtree(d, ignore_errors=True)
 
 
+def probe_busy_reopen():
+    """reopening a directory while another connection briefly shuts everybody out (a commit in a
+    rollback-journal mode, an exclusive holder) must wait and then find the stored settings and items,
+    never start over with defaults"""
+    import sqlite3
+    import threading
+    import time
+    import diskcache
+    out = []
+    for mode in ('wal', 'delete', 'truncate'):
+        d = tempfile.mkdtemp(prefix='c18b-')
+        try:
+            made = dict(eviction_policy='none', cull_limit=7, disk_min_file_size=123, disk_pickle_protocol=2, statistics=1,
+                        size_limit=5 * 2 ** 20, sqlite_journal_mode=mode)
+            c = diskcache.Cache(d, **made)
+            c[(1, 'a')] = 'tuple-key'
+            c[2 ** 70] = 'big'
+            c.close()
+            started, release = threading.Event(), threading.Event()
+
+            def hold():
+                con = sqlite3.connect(os.path.join(d, 'cache.db'), timeout=5, isolation_level=None)
+                con.execute('BEGIN EXCLUSIVE')
+                started.set()
+                release.wait(2)
+                con.execute('COMMIT')
+                con.close()
+            t = threading.Thread(target=hold)
+            t.start()
+            started.wait(5)
+            threading.Timer(0.3, release.set).start()
+            try:
+                c2 = diskcache.Cache(d)            # default timeout: waits for the holder
+                got = {k: getattr(c2, k) for k in made}
+                items = (c2.get((1, 'a')), c2.get(2 ** 70))
+                c2.close()
+            except Exception as e:
+                got, items = 'raised %s' % type(e).__name__, None
+            finally:
+                release.set()
+                t.join()
+            want = dict(made, statistics=1)
+            if got != want or items != ('tuple-key', 'big'):
+                diff = {k: (want[k], got.get(k)) for k in want if not isinstance(got, str) and got.get(k) != want[k]} if not isinstance(got, str) else got
+                out.append('reopening a %s-mode cache while another connection held the database for 0.3 s: settings %r, items %r '
+                           '(created with %r)' % (mode, diff, items, made))
+        finally:
+            shutil.rmtree(d, ignore_errors=True)
+    return '; '.join(out) if out else None
+
+
 def probe_processes():
     """a forked child and a freshly started interpreter share the directory"""
     import diskcache
@@ -226,7 +277,7 @@ def run(tier, seed, rng, known, replay):
     known_hits = list(r['known'])
     gv, gn, gs = golden_check()
     violations.extend(gv[:3])
-    for probe in (probe_d16, probe_processes):
+    for probe in (probe_d16, probe_processes, probe_busy_reopen):
         v = probe()
         if v:
             k = base.match_known(known, {'cfg': {}}, None, v)
